@@ -75,7 +75,8 @@ CHECKS = [
     _c("C12", "Lean theorems on the format state-machine model + grammar-derived differential run against the reference renderer",
        "Kernel-checked: literal text renders as itself for every brace-free string (model and reference parser), the print family returns the byte length written (+1 for ln), a missing argument is an error. "
        "Spec.Format (documented grammar) is the oracle for all one-item strings over index/fill/justify/width/radix sets × argument lists, random multi-item strings, malformed specifiers (no-crash).",
-       "Open: format_refines for every grammar-derived string."),
+       "Also kernel-checked: format_refines — for every grammar-derived format string (printer renderText of well-formed item lists; parse_renderText shows the reference parser reads it back) and every argument list, "
+       "the model of format_buf returns exactly the text the reference renderer prescribes, and an error where it prescribes one. Two explicit bounds: widths <= 65536, fewer than 2^64 arguments."),
     _c("C13", "generated failing constructs on known lines (independent of the scanner) + reference semantics predicting `rterr <line>`; Lean lemma make_lines_aligned",
        "One failing construct per program on a random line after random filler (comments, blank lines, definitions, loops, functions), inside/outside functions and closures, LF and CRLF; the reported "
        "line must equal the line computed from the text layout, and the reference semantics must predict the same line. Kernel-checked: make() emits exactly one line entry per code byte.",
